@@ -103,20 +103,15 @@ pub fn kruskal(store: &LpgStore, weight_property: Option<&str>) -> MstResult {
 
     // Collect all edges with weights (treating as undirected)
     let mut edges: Vec<(f64, NodeId, NodeId, EdgeId)> = Vec::new();
-    let mut seen_edges: std::collections::HashSet<(usize, usize)> =
-        std::collections::HashSet::new();
 
+    // Every edge is met exactly once as an out-edge of its source. Parallel and
+    // antiparallel edges are different edges and all take part: keeping only the
+    // first one seen between two nodes can miss the lightest.
     for &node in &nodes {
-        let i = *node_to_idx.get(&node).unwrap();
         for (neighbor, edge_id) in store.edges_from(node, Direction::Outgoing) {
-            if let Some(&j) = node_to_idx.get(&neighbor) {
-                // For undirected: only add each edge once
-                let key = if i < j { (i, j) } else { (j, i) };
-                if !seen_edges.contains(&key) {
-                    seen_edges.insert(key);
-                    let weight = extract_weight(store, edge_id, weight_property);
-                    edges.push((weight, node, neighbor, edge_id));
-                }
+            if node_to_idx.contains_key(&neighbor) {
+                let weight = extract_weight(store, edge_id, weight_property);
+                edges.push((weight, node, neighbor, edge_id));
             }
         }
     }
@@ -203,59 +198,65 @@ pub fn prim(store: &LpgStore, weight_property: Option<&str>, start: Option<NodeI
     // Priority queue: (weight, source, target, edge_id)
     let mut heap: BinaryHeap<MinScored<f64, (NodeId, NodeId, EdgeId)>> = BinaryHeap::new();
 
-    // Start with the first node
-    in_tree.insert(start_node, true);
-
-    // Add edges from start node
-    for (neighbor, edge_id) in store.edges_from(start_node, Direction::Outgoing) {
-        let weight = extract_weight(store, edge_id, weight_property);
-        heap.push(MinScored::new(weight, (start_node, neighbor, edge_id)));
-    }
-
-    // Also consider incoming edges (for undirected behavior)
-    for &other in &nodes {
-        for (neighbor, edge_id) in store.edges_from(other, Direction::Outgoing) {
-            if neighbor == start_node {
-                let weight = extract_weight(store, edge_id, weight_property);
-                heap.push(MinScored::new(weight, (other, start_node, edge_id)));
-            }
-        }
-    }
-
-    while let Some(MinScored(weight, (src, dst, edge_id))) = heap.pop() {
-        // Skip if target already in tree
-        if *in_tree.get(&dst).unwrap_or(&false) {
+    // Grow one tree per connected component, the start node's first
+    for root in std::iter::once(start_node).chain(nodes.iter().copied()) {
+        if *in_tree.get(&root).unwrap_or(&false) {
             continue;
         }
+        in_tree.insert(root, true);
 
-        // Add edge to MST
-        in_tree.insert(dst, true);
-        mst_edges.push((src, dst, edge_id, weight));
-        total_weight += weight;
-
-        // Add edges from new node
-        for (neighbor, new_edge_id) in store.edges_from(dst, Direction::Outgoing) {
-            if !*in_tree.get(&neighbor).unwrap_or(&false) {
-                let new_weight = extract_weight(store, new_edge_id, weight_property);
-                heap.push(MinScored::new(new_weight, (dst, neighbor, new_edge_id)));
-            }
+        // Add edges from the root
+        for (neighbor, edge_id) in store.edges_from(root, Direction::Outgoing) {
+            let weight = extract_weight(store, edge_id, weight_property);
+            heap.push(MinScored::new(weight, (root, neighbor, edge_id)));
         }
 
-        // Also consider incoming edges
+        // Also consider incoming edges (for undirected behavior); the heap entry
+        // is (tree node, candidate node), so the other end is the target
         for &other in &nodes {
-            if !*in_tree.get(&other).unwrap_or(&false) {
-                for (neighbor, new_edge_id) in store.edges_from(other, Direction::Outgoing) {
-                    if neighbor == dst {
-                        let new_weight = extract_weight(store, new_edge_id, weight_property);
-                        heap.push(MinScored::new(new_weight, (other, dst, new_edge_id)));
-                    }
+            for (neighbor, edge_id) in store.edges_from(other, Direction::Outgoing) {
+                if neighbor == root {
+                    let weight = extract_weight(store, edge_id, weight_property);
+                    heap.push(MinScored::new(weight, (root, other, edge_id)));
                 }
             }
         }
 
-        // MST has n-1 edges
-        if mst_edges.len() == n - 1 {
-            break;
+        while let Some(MinScored(weight, (src, dst, edge_id))) = heap.pop() {
+            // Skip if target already in tree
+            if *in_tree.get(&dst).unwrap_or(&false) {
+                continue;
+            }
+
+            // Add edge to MST
+            in_tree.insert(dst, true);
+            mst_edges.push((src, dst, edge_id, weight));
+            total_weight += weight;
+
+            // Add edges from new node
+            for (neighbor, new_edge_id) in store.edges_from(dst, Direction::Outgoing) {
+                if !*in_tree.get(&neighbor).unwrap_or(&false) {
+                    let new_weight = extract_weight(store, new_edge_id, weight_property);
+                    heap.push(MinScored::new(new_weight, (dst, neighbor, new_edge_id)));
+                }
+            }
+
+            // Also consider incoming edges
+            for &other in &nodes {
+                if !*in_tree.get(&other).unwrap_or(&false) {
+                    for (neighbor, new_edge_id) in store.edges_from(other, Direction::Outgoing) {
+                        if neighbor == dst {
+                            let new_weight = extract_weight(store, new_edge_id, weight_property);
+                            heap.push(MinScored::new(new_weight, (dst, other, new_edge_id)));
+                        }
+                    }
+                }
+            }
+
+            // MST has n-1 edges
+            if mst_edges.len() == n - 1 {
+                break;
+            }
         }
     }
 
